@@ -13,6 +13,7 @@ package main
 
 import (
 	"math"
+	"strconv"
 	"strings"
 
 	"github.com/golang/geo/r3"
@@ -75,12 +76,29 @@ func init() {
 		for k := 1; k+2 < len(a); k += 3 {
 			u, v := pF(a[k]), pF(a[k+1])
 			p := s2.Point{Vector: s2.VerifFaceUVToXYZ(c.Face(), u, v)}
-			if a[k+2] == "1" {
+			norm := a[k+2] == "1" || strings.HasPrefix(a[k+2], "1:")
+			if norm {
 				p = s2.Point{Vector: p.Normalize()}
+			}
+			if f := strings.Split(a[k+2], ":"); len(f) == 4 { // "1:dx:dy:dz": coordinates of the unit vector moved by whole ulps
+				nd := func(x float64, t string) float64 {
+					n, err := strconv.Atoi(t)
+					if err != nil || n < -8 || n > 8 {
+						panic("cellbound: bad nudge " + t)
+					}
+					for ; n > 0; n-- {
+						x = math.Nextafter(x, math.Inf(1))
+					}
+					for ; n < 0; n++ {
+						x = math.Nextafter(x, math.Inf(-1))
+					}
+					return x
+				}
+				p = s2.Point{Vector: r3.Vector{X: nd(p.X, f[1]), Y: nd(p.Y, f[2]), Z: nd(p.Z, f[3])}}
 			}
 			ll := s2.LatLngFromPoint(p)
 			pu := p // Cap.ContainsPoint wants a unit vector: normalize exactly once
-			if a[k+2] != "1" {
+			if !norm {
 				pu = s2.Point{Vector: p.Normalize()}
 			}
 			res = append(res, fx(p.X), fx(p.Y), fx(p.Z), fx(ll.Lat.Radians()), fx(ll.Lng.Radians()),
@@ -386,6 +404,15 @@ func (g *G) boundSamples(c s2.Cell) []string {
 		for _, v := range []float64{b.Y.Lo, b.Y.Hi} {
 			for t := 0; t < 3; t++ {
 				a = append(a, fx(in(u, b.X.Lo, b.X.Hi, r.Intn(3))), fx(in(v, b.Y.Lo, b.Y.Hi, r.Intn(3))), "1")
+			}
+		}
+	}
+	// the (normalized) corners themselves with every coordinate moved by up to 2 ulps: many of these are still exactly
+	// inside the cell and can be farther from the cap axis than the vertex (the oracle keeps only points exactly in the cell)
+	for _, u := range []float64{b.X.Lo, b.X.Hi} {
+		for _, v := range []float64{b.Y.Lo, b.Y.Hi} {
+			for t := 0; t < 4; t++ {
+				a = append(a, fx(u), fx(v), "1:"+strconv.Itoa(r.Intn(5)-2)+":"+strconv.Itoa(r.Intn(5)-2)+":"+strconv.Itoa(r.Intn(5)-2))
 			}
 		}
 	}
